@@ -137,7 +137,8 @@ impl Substitute for StringName {
             } else if string_names.len() == 1 {
                 Ok(string_names.iter().next().expect("Unreachable").clone())
             } else {
-                let names: Vec<Name> = string_names.iter().map(Name::from).collect();
+                // sorted: equal unions must give equal names, whatever the iteration order of the set
+                let names: Vec<Name> = string_names.iter().sorted().map(Name::from).collect();
                 Ok(StringName::new(UNION, names.as_slice()))
             }
         } else {
